@@ -191,6 +191,29 @@ pub fn run(seed: u64, verif_dir: &PathBuf) -> Result<u64, String> {
     Ok(n)
 }
 
+pub fn second_product_report() {
+    let t0 = std::time::Instant::now();
+    // validate the solver on small moduli against brute force first
+    println!("min_mod_in_range vs brute force: {:?}", crate::gen::validate_min_mod_in_range());
+    // and on the real modulus with a wider window, where hits are expected: 2^63 * 2^(width-137) per q
+    for width in [80u64, 76, 72] {
+        let (hi, lo) = crate::props::c14::lemire_entry(-100);
+        let t = crate::nat::Nat::from_u128(((hi as u128) << 64) | lo as u128);
+        let hits = crate::gen::second_product_window(&t, width, 100000);
+        let ok = hits.iter().all(|&w| {
+            let p = t.mul_small(w);
+            let (_, r) = p.divrem(&crate::nat::Nat::pow2(137));
+            r.cmp(&crate::nat::Nat::pow2(137).sub(&crate::nat::Nat::pow2(width))) != std::cmp::Ordering::Less
+        });
+        println!("q=-100 window 2^{width}: {} hits (expected about {:.1}), all verified: {ok}", hits.len(), (2f64).powi(63 + width as i32 - 137));
+    }
+    let pairs = crate::gen::lemire_second_product_pairs();
+    println!("second-product lo==MAX pairs over all 651 q: {} (search took {:.1}s)", pairs.len(), t0.elapsed().as_secs_f64());
+    for (w, q) in pairs.iter().take(20) {
+        println!("  w={w} q={q}");
+    }
+}
+
 pub fn hard_table_report() {
     let t0 = std::time::Instant::now();
     let t = crate::gen::hard_table();
